@@ -300,6 +300,10 @@ func c10Run(c *verifeng.Chooser, depth, nreq int) {
 
 	for d := 0; d < depth && !c.Failed(); d++ {
 		verifbubble.Wait()
+		if sig, detail := verifbubble.LockOrder(); sig != "" {
+			c.Fail("C10", "lock-order-inversion:"+sig, "%s", detail)
+			return
+		}
 		if judge() {
 			return
 		}
